@@ -1,181 +1,340 @@
+// Harnesses appended (as a child module) to src/tree_store/page_store/header.rs in the per-run scratch copy.
+// Offsets used as the oracle are literals transcribed from docs/design.md ("Database header (64 bytes)",
+// "Transaction slot 0 (128 bytes)"), not the constants of header.rs.
+use super::*;
+use crate::tree_store::PageNumber;
 use crate::vk;
 
-    use super::*;
-    use crate::tree_store::PageNumber;
+fn any_btree_header() -> BtreeHeader {
+    let region: u32 = vk::any();
+    let index: u32 = vk::any();
+    let order: u8 = vk::any();
+    vk::assume(region <= 0x000F_FFFF);
+    vk::assume(order <= 20);
+    vk::assume(u64::from(index) < (1u64 << (20 - order)));
+    BtreeHeader::new(PageNumber::new(region, index, order), vk::any(), vk::any())
+}
 
-    fn any_btree_header() -> BtreeHeader {
-        let region: u32 = vk::any();
-        let index: u32 = vk::any();
-        let order: u8 = vk::any();
-        vk::assume(region <= 0x000F_FFFF);
-        vk::assume(order <= 20);
-        vk::assume(u64::from(index) < (1u64 << (20 - order)));
-        BtreeHeader::new(PageNumber::new(region, index, order), vk::any(), vk::any())
+fn any_opt_header() -> Option<BtreeHeader> {
+    if vk::any() { Some(any_btree_header()) } else { None }
+}
+
+fn any_slot() -> TransactionHeader {
+    TransactionHeader {
+        version: FILE_FORMAT_VERSION3,
+        user_root: any_opt_header(),
+        system_root: any_opt_header(),
+        transaction_id: TransactionId::new(vk::any()),
+        corrupt_bytes: None,
     }
+}
 
-    fn any_opt_header() -> Option<BtreeHeader> {
-        if vk::any() { Some(any_btree_header()) } else { None }
+fn stub_format(_: core::fmt::Arguments<'_>) -> alloc::string::String { alloc::string::String::new() }
+
+// deterministic stand-in for the checksum under Kani: *some* pure function of the bytes (trusted base T8).
+fn stub_xxh3(data: &[u8]) -> Checksum {
+    let mut acc: u128 = 0x9E37_79B9_7F4A_7C15;
+    let mut i = 0;
+    while i < data.len() {
+        acc = acc.rotate_left(5) ^ u128::from(data[i]);
+        i += 1;
     }
+    acc
+}
 
-    fn any_slot() -> TransactionHeader {
-        TransactionHeader {
-            version: FILE_FORMAT_VERSION3,
-            user_root: any_opt_header(),
-            system_root: any_opt_header(),
-            transaction_id: TransactionId::new(vk::any()),
-            corrupt_bytes: None,
-        }
+// the checksum function the running build uses (stubbed under Kani, real in replay)
+fn ck(data: &[u8]) -> Checksum {
+    xxh3_checksum(data)
+}
+
+fn any_db_header() -> DatabaseHeader {
+    DatabaseHeader {
+        primary_slot: if vk::any() { 1 } else { 0 },
+        recovery_required: vk::any(),
+        two_phase_commit: vk::any(),
+        page_size: vk::any(),
+        region_header_pages: vk::any(),
+        region_max_data_pages: vk::any(),
+        full_regions: vk::any(),
+        trailing_partial_region_pages: vk::any(),
+        transaction_slots: [any_slot(), any_slot()],
     }
+}
 
-    fn stub_format(_: core::fmt::Arguments<'_>) -> alloc::string::String { alloc::string::String::new() }
+// C01-K1: a freshly written slot decodes to itself and verifies
+#[cfg_attr(kani, kani::proof)]
+#[cfg_attr(kani, kani::stub(alloc::fmt::format, stub_format))]
+#[cfg_attr(kani, kani::stub(crate::tree_store::page_store::page_manager::xxh3_checksum, stub_xxh3))]
+#[cfg_attr(kani, kani::unwind(130))]
+#[cfg_attr(verif_replay, test)]
+fn c01_k1_slot_roundtrip() {
+    let s = any_slot();
+    let bytes = s.to_bytes();
+    let Ok((d, corrupted)) = TransactionHeader::from_bytes(&bytes) else { panic!("C01-K1: a written slot was rejected") };
+    assert!(!corrupted);
+    assert!(d.version == s.version);
+    assert!(d.user_root == s.user_root);
+    assert!(d.system_root == s.system_root);
+    assert!(d.transaction_id == s.transaction_id);
+    assert!(d.corrupt_bytes.is_none());
+}
 
-    // deterministic stand-in for the checksum: any pure function of the bytes
-    fn stub_xxh3(data: &[u8]) -> Checksum {
-        let mut acc: u128 = 0x9E37_79B9_7F4A_7C15;
-        let mut i = 0;
-        while i < data.len() {
-            acc = acc.rotate_left(5) ^ u128::from(data[i]);
-            i += 1;
-        }
-        acc
+// C10-F3: slot layout per docs/design.md
+#[cfg_attr(kani, kani::proof)]
+#[cfg_attr(kani, kani::stub(alloc::fmt::format, stub_format))]
+#[cfg_attr(kani, kani::stub(crate::tree_store::page_store::page_manager::xxh3_checksum, stub_xxh3))]
+#[cfg_attr(kani, kani::unwind(130))]
+#[cfg_attr(verif_replay, test)]
+fn c10_f3_slot_layout() {
+    let s = any_slot();
+    let b = s.to_bytes();
+    assert!(b.len() == 128);
+    assert!(b[0] == 3);
+    assert!(b[1] == u8::from(s.user_root.is_some()));
+    assert!(b[2] == u8::from(s.system_root.is_some()));
+    let i: usize = vk::any();
+    vk::assume(i < 128);
+    // reserved / padding bytes are zero: byte 3..8, 72..104
+    if (3..8).contains(&i) || (72..104).contains(&i) {
+        assert!(b[i] == 0);
     }
-
-    #[cfg_attr(kani, kani::proof)]
-    #[cfg_attr(verif_replay, test)]
-    #[cfg_attr(kani, kani::stub(alloc::fmt::format, stub_format))]
-    #[cfg_attr(kani, kani::stub(crate::tree_store::page_store::page_manager::xxh3_checksum, stub_xxh3))]
-    #[cfg_attr(kani, kani::unwind(130))]
-    fn slot_roundtrip_real_xxh3() {
-        let s = any_slot();
-        let bytes = s.to_bytes();
-        let Ok((d, corrupted)) = TransactionHeader::from_bytes(&bytes) else { panic!() };
-        assert!(!corrupted);
-        assert!(d.user_root == s.user_root);
-        assert!(d.system_root == s.system_root);
-        assert!(d.transaction_id == s.transaction_id);
+    if let Some(h) = s.user_root {
+        let hb = h.to_le_bytes();
+        if (8..40).contains(&i) { assert!(b[i] == hb[i - 8]); }
+    } else if (8..40).contains(&i) {
+        assert!(b[i] == 0);
     }
+    if let Some(h) = s.system_root {
+        let hb = h.to_le_bytes();
+        if (40..72).contains(&i) { assert!(b[i] == hb[i - 40]); }
+    } else if (40..72).contains(&i) {
+        assert!(b[i] == 0);
+    }
+    let t = s.transaction_id.raw_id().to_le_bytes();
+    if (104..112).contains(&i) { assert!(b[i] == t[i - 104]); }
+    // slot checksum: the last 16 bytes, over all preceding bytes
+    let c = ck(&b[..112]).to_le_bytes();
+    if (112..128).contains(&i) { assert!(b[i] == c[i - 112]); }
+}
 
-    fn any_db_header() -> DatabaseHeader {
-        DatabaseHeader {
-            primary_slot: if vk::any() { 1 } else { 0 },
+// C01-K2: the commit point is one byte.  Flipping the primary / the 2PC flag / recovery flag changes only byte 9,
+// whose low three bits decode back and whose other bits are zero.
+#[cfg_attr(kani, kani::proof)]
+#[cfg_attr(kani, kani::stub(alloc::fmt::format, stub_format))]
+#[cfg_attr(kani, kani::stub(crate::tree_store::page_store::page_manager::xxh3_checksum, stub_xxh3))]
+#[cfg_attr(kani, kani::unwind(130))]
+#[cfg_attr(verif_replay, test)]
+fn c01_k2_god_byte_only() {
+    let h = any_db_header();
+    let mut h2 = h.clone();
+    if vk::any() { h2.swap_primary_slot(); }
+    h2.two_phase_commit = vk::any();
+    h2.recovery_required = vk::any();
+    let a = h.to_bytes(true);
+    let b = h2.to_bytes(true);
+    let i: usize = vk::any();
+    vk::assume(i < 320 && i != 9);
+    assert!(a[i] == b[i]);
+    let g = b[9];
+    assert!((g & 1 != 0) == (h2.primary_slot == 1));
+    assert!((g & 2 != 0) == h2.recovery_required);
+    assert!((g & 4 != 0) == h2.two_phase_commit);
+    assert!(g & !7 == 0);
+}
+
+// C10-F4: database header layout per docs/design.md
+#[cfg_attr(kani, kani::proof)]
+#[cfg_attr(kani, kani::stub(alloc::fmt::format, stub_format))]
+#[cfg_attr(kani, kani::stub(crate::tree_store::page_store::page_manager::xxh3_checksum, stub_xxh3))]
+#[cfg_attr(kani, kani::unwind(130))]
+#[cfg_attr(verif_replay, test)]
+fn c10_f4_header_layout() {
+    let h = any_db_header();
+    let b = h.to_bytes(true);
+    assert!(b.len() == 320);
+    let magic: [u8; 9] = [b'r', b'e', b'd', b'b', 0x1A, 0x0A, 0xA9, 0x0D, 0x0A];
+    let i: usize = vk::any();
+    vk::assume(i < 320);
+    if i < 9 { assert!(b[i] == magic[i]); }
+    if i == 10 || i == 11 || (32..64).contains(&i) { assert!(b[i] == 0); }
+    if (12..16).contains(&i) { assert!(b[i] == h.page_size.to_le_bytes()[i - 12]); }
+    if (16..20).contains(&i) { assert!(b[i] == h.region_header_pages.to_le_bytes()[i - 16]); }
+    if (20..24).contains(&i) { assert!(b[i] == h.region_max_data_pages.to_le_bytes()[i - 20]); }
+    if (24..28).contains(&i) { assert!(b[i] == h.full_regions.to_le_bytes()[i - 24]); }
+    if (28..32).contains(&i) { assert!(b[i] == h.trailing_partial_region_pages.to_le_bytes()[i - 28]); }
+    let s0 = h.transaction_slots[0].to_bytes();
+    let s1 = h.transaction_slots[1].to_bytes();
+    if (64..192).contains(&i) { assert!(b[i] == s0[i - 64]); }
+    if (192..320).contains(&i) { assert!(b[i] == s1[i - 192]); }
+}
+
+// C01-K3 / C12-K3: slot selection
+#[cfg_attr(kani, kani::proof)]
+#[cfg_attr(kani, kani::stub(alloc::fmt::format, stub_format))]
+#[cfg_attr(verif_replay, test)]
+fn c01_k3_select_primary() {
+    let s0 = TransactionHeader::new(TransactionId::new(vk::any()));
+    let s1 = TransactionHeader::new(TransactionId::new(vk::any()));
+    let primary: usize = if vk::any() { 1 } else { 0 };
+    let two_phase: bool = vk::any();
+    let pc: bool = vk::any();
+    let sc: bool = vk::any();
+    let mut h = UnrepairedDatabaseHeader {
+        inner: DatabaseHeader {
+            primary_slot: primary,
             recovery_required: vk::any(),
-            two_phase_commit: vk::any(),
-            page_size: vk::any(),
-            region_header_pages: vk::any(),
-            region_max_data_pages: vk::any(),
-            full_regions: vk::any(),
-            trailing_partial_region_pages: vk::any(),
-            transaction_slots: [any_slot(), any_slot()],
-        }
-    }
-
-    // C01-K4: with recovery_required the layout is rebuilt from the file length
-    #[cfg_attr(kani, kani::proof)]
-    #[cfg_attr(verif_replay, test)]
-    #[cfg_attr(kani, kani::stub(alloc::fmt::format, stub_format))]
-    #[cfg_attr(kani, kani::stub(crate::tree_store::page_store::page_manager::xxh3_checksum, stub_xxh3))]
-    #[cfg_attr(kani, kani::unwind(130))]
-    fn finalize_uses_file_len() {
-        let mut inner = any_db_header();
-        inner.recovery_required = true;
-        inner.two_phase_commit = true; // keep select_primary_slot trivial
-        // geometry as validated by from_bytes
-        vk::assume(inner.page_size == 4096);
-        vk::assume(inner.region_max_data_pages >= 1 && inner.region_max_data_pages <= 0x10_0000);
-        vk::assume(inner.region_header_pages <= 0x10_0000);
-        let u = UnrepairedDatabaseHeader { inner, primary_corrupted: false, secondary_corrupted: vk::any() };
-        let file_len: u64 = vk::any();
-        if let Ok((h, _clean)) = u.finalize(file_len) {
-            assert!(h.layout().len() == file_len);
-        }
-    }
-
-    // C01-K2: flipping the primary and setting the 2PC flag changes exactly one byte
-    #[cfg_attr(kani, kani::proof)]
-    #[cfg_attr(verif_replay, test)]
-    #[cfg_attr(kani, kani::stub(alloc::fmt::format, stub_format))]
-    #[cfg_attr(kani, kani::stub(crate::tree_store::page_store::page_manager::xxh3_checksum, stub_xxh3))]
-    #[cfg_attr(kani, kani::unwind(130))]
-    fn god_byte_only() {
-        let h = any_db_header();
-        let mut h2 = h.clone();
-        if vk::any() { h2.swap_primary_slot(); }
-        h2.two_phase_commit = vk::any();
-        h2.recovery_required = vk::any();
-        let a = h.to_bytes(true);
-        let b = h2.to_bytes(true);
-        let i: usize = vk::any();
-        vk::assume(i < DB_HEADER_SIZE && i != GOD_BYTE_OFFSET);
-        assert!(a[i] == b[i]);
-        let g = b[GOD_BYTE_OFFSET];
-        assert!((g & PRIMARY_BIT != 0) == (h2.primary_slot == 1));
-        assert!((g & RECOVERY_REQUIRED != 0) == h2.recovery_required);
-        assert!((g & TWO_PHASE_COMMIT != 0) == h2.two_phase_commit);
-        assert!(g & !7 == 0);
-    }
-
-    // C12-K1/K2: corrupted flag is exact; a corrupt slot is written back verbatim
-    #[cfg_attr(kani, kani::proof)]
-    #[cfg_attr(verif_replay, test)]
-    #[cfg_attr(kani, kani::stub(alloc::fmt::format, stub_format))]
-    #[cfg_attr(kani, kani::stub(crate::tree_store::page_store::page_manager::xxh3_checksum, stub_xxh3))]
-    #[cfg_attr(kani, kani::unwind(130))]
-    fn corrupt_slot_verbatim() {
-        let mut d: [u8; TRANSACTION_SIZE] = vk::any();
-        d[VERSION_OFFSET] = FILE_FORMAT_VERSION3;
-        let Ok((h, corrupted)) = TransactionHeader::from_bytes(&d) else { panic!() };
-        let mut stored = [0u8; 16];
-        stored.copy_from_slice(&d[SLOT_CHECKSUM_OFFSET..]);
-        let expect = Checksum::from_le_bytes(stored) != stub_xxh3(&d[..SLOT_CHECKSUM_OFFSET]);
-        assert!(corrupted == expect);
-        if corrupted {
-            let back = h.to_bytes();
-            let i: usize = vk::any();
-            vk::assume(i < TRANSACTION_SIZE);
-            assert!(back[i] == d[i]);
-        }
-    }
-
-    #[cfg_attr(kani, kani::proof)]
-    #[cfg_attr(verif_replay, test)]
-    fn select_primary() {
-        let s0 = TransactionHeader::new(TransactionId::new(vk::any()));
-        let s1 = TransactionHeader::new(TransactionId::new(vk::any()));
-        let primary: usize = if vk::any() { 1 } else { 0 };
-        let two_phase: bool = vk::any();
-        let pc: bool = vk::any();
-        let sc: bool = vk::any();
-        let t0 = s0.transaction_id;
-        let t1 = s1.transaction_id;
-        let mut h = UnrepairedDatabaseHeader {
-            inner: DatabaseHeader {
-                primary_slot: primary,
-                recovery_required: vk::any(),
-                two_phase_commit: two_phase,
-                page_size: 4096,
-                region_header_pages: 0,
-                region_max_data_pages: 1024,
-                full_regions: 0,
-                trailing_partial_region_pages: 10,
-                transaction_slots: [s0, s1],
-            },
-            primary_corrupted: pc,
-            secondary_corrupted: sc,
-        };
-        let r = h.select_primary_slot();
-        let (tp, ts) = if primary == 0 { (t0, t1) } else { (t1, t0) };
-        match r {
-            Err(_) => assert!((two_phase && pc) || (!two_phase && pc && sc)),
-            Ok(kept) => {
-                assert!(kept == (h.inner.primary_slot == primary));
-                // never select a corrupted slot
-                if kept { assert!(!pc); } else { assert!(!sc); }
-                if !two_phase && !pc && !sc {
-                    // newest wins
-                    assert!(h.inner.primary_slot().transaction_id >= h.inner.secondary_slot().transaction_id);
-                }
-                if two_phase { assert!(kept); }
-                let _ = (tp, ts);
+            two_phase_commit: two_phase,
+            page_size: 4096,
+            region_header_pages: 0,
+            region_max_data_pages: 1024,
+            full_regions: 0,
+            trailing_partial_region_pages: 10,
+            transaction_slots: [s0, s1],
+        },
+        primary_corrupted: pc,
+        secondary_corrupted: sc,
+    };
+    let r = h.select_primary_slot();
+    let expect_err = (two_phase && pc) || (!two_phase && pc && sc);
+    vk::cover!(expect_err);
+    vk::cover!(!expect_err);
+    match r {
+        Err(_) => { assert!(expect_err); }
+        Ok(kept) => {
+            assert!(!expect_err);
+            assert!(kept == (h.inner.primary_slot == primary));
+            // never select a slot that failed verification
+            if kept { assert!(!pc); } else { assert!(!sc); }
+            // under two-phase commit the primary is kept
+            if two_phase { assert!(kept); }
+            // one-phase, both valid: the newer transaction wins
+            if !two_phase && !pc && !sc {
+                assert!(h.inner.primary_slot().transaction_id >= h.inner.secondary_slot().transaction_id);
             }
         }
     }
+}
+
+// C01-K4: with recovery_required the layout is rebuilt from the file length, whatever the stored counts were;
+// without it, a file shorter than the stored layout is rejected.
+#[cfg_attr(kani, kani::proof)]
+#[cfg_attr(kani, kani::stub(alloc::fmt::format, stub_format))]
+#[cfg_attr(kani, kani::stub(crate::tree_store::page_store::page_manager::xxh3_checksum, stub_xxh3))]
+#[cfg_attr(kani, kani::unwind(130))]
+#[cfg_attr(verif_replay, test)]
+fn c01_k4_finalize_uses_file_len() {
+    let mut inner = any_db_header();
+    inner.recovery_required = true;
+    inner.two_phase_commit = true; // keeps select_primary_slot trivial; selection is C01-K3
+    // geometry as validated by from_bytes
+    vk::assume(inner.page_size == 4096);
+    vk::assume(inner.region_max_data_pages >= 1 && inner.region_max_data_pages <= 0x10_0000);
+    vk::assume(inner.region_header_pages <= 0x10_0000);
+    let u = UnrepairedDatabaseHeader { inner, primary_corrupted: false, secondary_corrupted: vk::any() };
+    let file_len: u64 = vk::any();
+    let r = u.finalize(file_len);
+    vk::cover!(r.is_ok());
+    vk::cover!(r.is_err());
+    if let Ok((h, _clean)) = r {
+        assert!(h.layout().len() == file_len);
+    }
+}
+
+#[cfg_attr(kani, kani::proof)]
+#[cfg_attr(kani, kani::stub(alloc::fmt::format, stub_format))]
+#[cfg_attr(kani, kani::stub(crate::tree_store::page_store::page_manager::xxh3_checksum, stub_xxh3))]
+#[cfg_attr(kani, kani::unwind(130))]
+#[cfg_attr(verif_replay, test)]
+fn c01_k4b_finalize_rejects_truncation() {
+    let mut inner = any_db_header();
+    inner.recovery_required = false;
+    inner.two_phase_commit = true;
+    vk::assume(inner.page_size == 4096);
+    vk::assume(inner.region_max_data_pages >= 1 && inner.region_max_data_pages <= 0x10_0000);
+    vk::assume(inner.region_header_pages <= 0x10_0000);
+    // counts as validated by from_bytes for a cleanly closed file
+    vk::assume(inner.trailing_partial_region_pages <= inner.region_max_data_pages);
+    let nregions = u64::from(inner.full_regions) + u64::from(inner.trailing_partial_region_pages > 0);
+    vk::assume(nregions >= 1 && nregions <= 0x10_0000);
+    let stored = inner.layout().len();
+    let u = UnrepairedDatabaseHeader { inner, primary_corrupted: false, secondary_corrupted: vk::any() };
+    let file_len: u64 = vk::any();
+    let r = u.finalize(file_len);
+    vk::cover!(r.is_ok());
+    match r {
+        Ok((h, clean)) => {
+            assert!(file_len >= stored);
+            assert!(h.layout().len() == file_len);
+            if clean { assert!(file_len == stored); }
+        }
+        Err(_) => {}
+    }
+}
+
+// C12-K1/K2: the corrupted flag is exactly "stored checksum != computed"; a slot that failed verification is
+// written back verbatim (never re-serialised as valid); write_secondary_slot clears the remembered bytes.
+#[cfg_attr(kani, kani::proof)]
+#[cfg_attr(kani, kani::stub(alloc::fmt::format, stub_format))]
+#[cfg_attr(kani, kani::stub(crate::tree_store::page_store::page_manager::xxh3_checksum, stub_xxh3))]
+#[cfg_attr(kani, kani::unwind(130))]
+#[cfg_attr(verif_replay, test)]
+fn c12_k1k2_corrupt_slot_verbatim() {
+    let mut d: [u8; 128] = vk::any_bytes::<128>();
+    d[0] = 3;
+    let Ok((h, corrupted)) = TransactionHeader::from_bytes(&d) else { panic!("C12-K1: a version 3 slot was rejected") };
+    let mut stored = [0u8; 16];
+    stored.copy_from_slice(&d[112..]);
+    let expect = Checksum::from_le_bytes(stored) != ck(&d[..112]);
+    assert!(corrupted == expect);
+    vk::cover!(corrupted);
+    vk::cover!(!corrupted);
+    if corrupted {
+        let back = h.to_bytes();
+        let i: usize = vk::any();
+        vk::assume(i < 128);
+        assert!(back[i] == d[i]);
+    }
+}
+
+#[cfg_attr(kani, kani::proof)]
+#[cfg_attr(kani, kani::stub(alloc::fmt::format, stub_format))]
+#[cfg_attr(kani, kani::stub(crate::tree_store::page_store::page_manager::xxh3_checksum, stub_xxh3))]
+#[cfg_attr(kani, kani::unwind(130))]
+#[cfg_attr(verif_replay, test)]
+fn c12_k2b_new_commit_clears_corrupt_bytes() {
+    let mut h = any_db_header();
+    let junk: [u8; 128] = vk::any_bytes::<128>();
+    let sec = h.primary_slot ^ 1;
+    h.transaction_slots[sec].corrupt_bytes = Some(junk);
+    let id = TransactionId::new(vk::any());
+    let ur = any_opt_header();
+    let sr = any_opt_header();
+    h.write_secondary_slot(id, ur, sr);
+    let s = &h.transaction_slots[sec];
+    assert!(s.corrupt_bytes.is_none());
+    assert!(s.transaction_id == id && s.user_root == ur && s.system_root == sr);
+    // and the slot then serialises with a valid checksum
+    let b = s.to_bytes();
+    let Ok((_, corrupted)) = TransactionHeader::from_bytes(&b) else { panic!("C12-K2b") };
+    assert!(!corrupted);
+    // the primary slot is untouched
+    assert!(h.primary_slot == sec ^ 1);
+}
+
+// C12-K4: version gate — 1/2 => UpgradeRequired, anything else != 3 => Corrupted; never parsed as v3.
+#[cfg_attr(kani, kani::proof)]
+#[cfg_attr(kani, kani::stub(alloc::fmt::format, stub_format))]
+#[cfg_attr(kani, kani::stub(crate::tree_store::page_store::page_manager::xxh3_checksum, stub_xxh3))]
+#[cfg_attr(kani, kani::unwind(130))]
+#[cfg_attr(verif_replay, test)]
+fn c12_k4_version_gate() {
+    let d: [u8; 128] = vk::any_bytes::<128>();
+    vk::assume(d[0] != 3);
+    let r = TransactionHeader::from_bytes(&d);
+    match r {
+        Ok(_) => panic!("C12-K4: a slot with version != 3 was parsed"),
+        Err(DatabaseError::UpgradeRequired(v)) => { assert!((d[0] == 1 || d[0] == 2) && v == d[0]); }
+        Err(DatabaseError::Storage(StorageError::Corrupted(_))) => { assert!(d[0] != 1 && d[0] != 2); }
+        Err(_) => panic!("C12-K4: unexpected error kind"),
+    }
+}
